@@ -39,8 +39,12 @@ pub fn check_bytes(ctx: &mut Ctx, family: &str, idx: u64, b: &[u8]) {
     let parsed = monitor::guard(|| Packet::parse(b).map(|p| bridge::observe(&p)).map_err(|e| format!("{:?}", e)));
     let parsed = match parsed {
         Ok(p) => p,
-        Err(_) => {
-            ctx.count("parse_panicked_(C01_territory)");
+        Err(pn) => {
+            // a panic is C01's subject, but it is also neither "rejected" nor "returns the entries the wire delimits"
+            let loc = monitor::short_loc(&pn.location);
+            ctx.violation(if w.is_err() { "rejects-overrun" } else { "entries-as-delimited" }, &format!("panic-instead-of-{}@{}", if w.is_err() { "rejection" } else { "entries" }, loc),
+                format!("Packet::parse panicked at {} ({}) on a {}-byte message that the envelope walker {}", loc, pn.message, b.len(), if w.is_err() { "rejects" } else { "accepts" }),
+                case_bytes_json(family, idx, b));
             return;
         }
     };
